@@ -193,7 +193,7 @@ class Ctx:
             return False
         key = hashlib.sha1(json.dumps([api, symptom, attrs], sort_keys=True, default=str).encode()).hexdigest()[:12]
         path = os.path.join(self.out, '%s_%s.json' % (api.replace('/', '_').replace(' ', '_')[:40], key))
-        if len(self.violations) < 200:
+        if not os.path.exists(path) and len(os.listdir(self.out)) < 400:
             with open(path, 'w') as f:
                 json.dump(dict(property=self.prop, api=api, symptom=symptom, attrs=attrs, detail=detail, seed=self.seed, tier=self.tier),
                           f, indent=1, default=str)
